@@ -15,6 +15,7 @@ class State:
         self.clock0 = z3.Int(world.fresh_name("clock"))
         self.clock_off = 0
         self.entry_clock = self.clock0      # allocation clock when the function under verification is entered
+        self.heap_closure = False
         self.pre = None     # entry snapshot (for old())
         self.ghost = {}
         self.inst = set()   # contract instances / typed reads whose facts are already in pc
@@ -32,6 +33,7 @@ class State:
         s.clock0 = self.clock0
         s.clock_off = self.clock_off
         s.entry_clock = self.entry_clock
+        s.heap_closure = self.heap_closure
         s.pre = self.pre
         s.ghost = dict(self.ghost)
         s.inst = set(self.inst)
@@ -60,7 +62,9 @@ class State:
             w = self.w
             r = z3.Const(w.fresh_name("hc"), w.Ref)
             c0 = self.entry_clock
-            if sort == w.Ref:
+            if not self.heap_closure:
+                pass      # (only functions whose contract asks for it: the quantified axiom costs the solver its counter-models)
+            elif sort == w.Ref:
                 x = z3.Select(h0, r)
                 self.pc.append(z3.ForAll([r], z3.Implies(w.born(r) < c0, z3.Or(x == w.null, w.born(x) < c0)), patterns=[z3.Select(h0, r)]))
             elif sort in [w.seq_sort(w.Ref)] if hasattr(w, "seq_sort") else False:
